@@ -47,8 +47,9 @@ def spec():
 class StubPythia:
   """Pythia stand-in: returns `deliver` suggestions (None = exactly what was asked); records the calls."""
 
-  def __init__(self, deliver=None, fail=None):
+  def __init__(self, deliver=None, fail=None, stateful=False):
     self.deliver, self.fail, self.calls, self.asked = deliver, fail, 0, []
+    self.stateful = stateful       # like GRID_SEARCH: position persisted in study metadata, read from the request
 
   def Suggest(self, req):
     self.calls += 1
@@ -57,10 +58,18 @@ class StubPythia:
       raise self.fail
     n = req.count if self.deliver is None else self.deliver
     d = pythia_service_pb2.SuggestDecision()
+    pos = 0
+    if self.stateful:
+      for kv in req.study_descriptor.config.metadata:
+        if kv.key == 'position' and kv.ns == ':stub':
+          pos = int(kv.value)
     for i in range(n):
       s = d.suggestions.add()
       p = s.parameters.add(parameter_id='x')
-      p.value.number_value = 0.5
+      p.value.number_value = 0.5 if not self.stateful else (pos + i + 1) / 64.0
+    if self.stateful:
+      u = d.metadata.add()
+      u.metadatum.key, u.metadatum.ns, u.metadatum.value = 'position', ':stub', str(pos + n)
     return d
 
   def EarlyStop(self, req):
